@@ -24,6 +24,18 @@ pub struct Src<'a> {
     /// hidden-lane contents for Vec3A / Mat3A / Affine3A / BVec3A construction (None: `Vec3A::new`)
     pub hidden: Option<&'a [u32]>,
     pub hpos: usize,
+    /// values produced by earlier steps of a program (may carry arbitrary hidden-lane content)
+    pub pool: Option<&'a Pool>,
+}
+
+/// Typed results of earlier calls, kept with their raw registers so that later steps of a program
+/// can be fed glam's own outputs (including whatever the operation left in a padding lane).
+#[derive(Default, Clone)]
+pub struct Pool {
+    pub v3a: Vec<Vec3A>,
+    pub m3a: Vec<Mat3A>,
+    pub a3a: Vec<Affine3A>,
+    pub b3a: Vec<BVec3A>,
 }
 
 pub const CANARY32: u32 = 0x7fc0_dead;
@@ -31,10 +43,10 @@ pub const CANARY64: u64 = 0x7ff8_dead_beef_0001;
 
 impl<'a> Src<'a> {
     pub fn new(w: &'a [u64]) -> Self {
-        Src { w, pos: 0, hidden: None, hpos: 0 }
+        Src { w, pos: 0, hidden: None, hpos: 0, pool: None }
     }
     pub fn with_hidden(w: &'a [u64], h: &'a [u32]) -> Self {
-        Src { w, pos: 0, hidden: Some(h), hpos: 0 }
+        Src { w, pos: 0, hidden: Some(h), hpos: 0, pool: None }
     }
     #[inline]
     pub fn next(&mut self) -> u64 {
@@ -204,7 +216,14 @@ impl Arg for Vec3A {
         let x = f32::get(s);
         let y = f32::get(s);
         let z = f32::get(s);
-        match s.next_hidden() {
+        let h = s.next_hidden();
+        if let Some(p) = s.pool {
+            let sel = x.to_bits() ^ (y.to_bits() >> 3);
+            if !p.v3a.is_empty() && sel % 3 != 0 {
+                return p.v3a[(sel as usize / 3) % p.v3a.len()];
+            }
+        }
+        match h {
             None => Vec3A::new(x, y, z),
             Some(h) => Vec3A::from_vec4(Vec4::new(x, y, z, f32::from_bits(h))),
         }
@@ -216,7 +235,13 @@ impl Arg for BVec3A {
         let x = bool::get(s);
         let y = bool::get(s);
         let z = bool::get(s);
-        match s.next_hidden() {
+        let hh = s.next_hidden();
+        if let Some(p) = s.pool {
+            if !p.b3a.is_empty() && (x ^ y) {
+                return p.b3a[(z as usize * 5 + s.pos) % p.b3a.len()];
+            }
+        }
+        match hh {
             None => BVec3A::new(x, y, z),
             Some(h) => {
                 // mask produced by a comparison: the hidden lane compares true or false independently
@@ -268,6 +293,12 @@ impl Arg for Mat3A {
         let a = Vec3A::get(s);
         let b = Vec3A::get(s);
         let c = Vec3A::get(s);
+        if let Some(p) = s.pool {
+            let sel = a.x.to_bits() ^ c.z.to_bits();
+            if !p.m3a.is_empty() && sel % 4 == 1 {
+                return p.m3a[(sel as usize / 4) % p.m3a.len()];
+            }
+        }
         Mat3A::from_cols(a, b, c)
     }
 }
@@ -291,6 +322,12 @@ impl Arg for Affine3A {
     fn get(s: &mut Src) -> Affine3A {
         let m = Mat3A::get(s);
         let t = Vec3A::get(s);
+        if let Some(p) = s.pool {
+            let sel = t.y.to_bits();
+            if !p.a3a.is_empty() && sel % 4 == 2 {
+                return p.a3a[(sel as usize / 4) % p.a3a.len()];
+            }
+        }
         Affine3A { matrix3: m, translation: t }
     }
 }
@@ -343,13 +380,16 @@ pub const K_TAG: u8 = 4;
 
 /// Flattened result of one call: words with a kind each, grouped per result value
 /// (the lanes of one vector / matrix / quaternion share a scale).
-#[derive(Default, Clone, Debug, PartialEq)]
+#[derive(Default, Clone)]
 pub struct Obs {
     pub w: Vec<u64>,
     pub k: Vec<u8>,
     /// group id per word
     pub g: Vec<u32>,
     pub strs: Vec<String>,
+    /// typed copies of observed Vec3A / Mat3A / Affine3A / BVec3A results (only when `keep` is set)
+    pub pool: Pool,
+    pub keep: bool,
     cur: u32,
     depth: u32,
 }
@@ -358,11 +398,33 @@ impl Obs {
     pub fn new() -> Obs {
         Obs::default()
     }
+    /// same observable content (words, kinds, strings)?
+    pub fn same(&self, o: &Obs) -> bool {
+        self.w == o.w && self.k == o.k && self.strs == o.strs
+    }
+    pub fn describe(&self) -> String {
+        let mut s = String::new();
+        let mut si = 0;
+        for i in 0..self.w.len() {
+            match self.k[i] {
+                K_F32 => s += &format!("{:?}(0x{:x}) ", f32::from_bits(self.w[i] as u32), self.w[i]),
+                K_F64 => s += &format!("{:?}(0x{:x}) ", f64::from_bits(self.w[i]), self.w[i]),
+                K_STR => {
+                    s += &format!("{:?} ", self.strs.get(si));
+                    si += 1
+                }
+                K_TAG => s += &format!("tag{} ", self.w[i]),
+                _ => s += &format!("{} ", self.w[i] as i64),
+            }
+        }
+        s
+    }
     pub fn clear(&mut self) {
         self.w.clear();
         self.k.clear();
         self.g.clear();
         self.strs.clear();
+        self.pool = Pool::default();
         self.cur = 0;
         self.depth = 0;
     }
@@ -488,18 +550,55 @@ impl<A: Observe, B: Observe, C: Observe, D: Observe> Observe for (A, B, C, D) {
 macro_rules! obs_arr {
     ($($V:ident),+) => { $(impl Observe for $V { #[inline] fn obs(&self, o: &mut Obs) { self.to_array().obs(o) } })+ };
 }
-obs_arr!(Vec2, Vec3, Vec3A, Vec4, DVec2, DVec3, DVec4, Quat, DQuat);
+obs_arr!(Vec2, Vec3, Vec4, DVec2, DVec3, DVec4, Quat, DQuat);
+impl Observe for Vec3A {
+    #[inline]
+    fn obs(&self, o: &mut Obs) {
+        if o.keep {
+            o.pool.v3a.push(*self);
+        }
+        self.to_array().obs(o)
+    }
+}
 obs_arr!(I8Vec2, I8Vec3, I8Vec4, U8Vec2, U8Vec3, U8Vec4, I16Vec2, I16Vec3, I16Vec4, U16Vec2, U16Vec3, U16Vec4);
 obs_arr!(IVec2, IVec3, IVec4, UVec2, UVec3, UVec4, I64Vec2, I64Vec3, I64Vec4, U64Vec2, U64Vec3, U64Vec4);
 obs_arr!(USizeVec2, USizeVec3, USizeVec4);
 macro_rules! obs_cols {
     ($($V:ident),+) => { $(impl Observe for $V { #[inline] fn obs(&self, o: &mut Obs) { self.to_cols_array().obs(o) } })+ };
 }
-obs_cols!(Mat2, Mat3, Mat3A, Mat4, DMat2, DMat3, DMat4, Affine2, Affine3A, DAffine2, DAffine3);
+obs_cols!(Mat2, Mat3, Mat4, DMat2, DMat3, DMat4, Affine2, DAffine2, DAffine3);
+impl Observe for Mat3A {
+    #[inline]
+    fn obs(&self, o: &mut Obs) {
+        if o.keep {
+            o.pool.m3a.push(*self);
+        }
+        self.to_cols_array().obs(o)
+    }
+}
+impl Observe for Affine3A {
+    #[inline]
+    fn obs(&self, o: &mut Obs) {
+        if o.keep {
+            o.pool.a3a.push(*self);
+        }
+        self.to_cols_array().obs(o)
+    }
+}
 macro_rules! obs_mask {
     ($($V:ident, $N:expr),+) => { $(impl Observe for $V { #[inline] fn obs(&self, o: &mut Obs) { let a: [bool; $N] = (*self).into(); a.obs(o) } })+ };
 }
-obs_mask!(BVec2, 2, BVec3, 3, BVec4, 4, BVec3A, 3, BVec4A, 4);
+obs_mask!(BVec2, 2, BVec3, 3, BVec4, 4, BVec4A, 4);
+impl Observe for BVec3A {
+    #[inline]
+    fn obs(&self, o: &mut Obs) {
+        if o.keep {
+            o.pool.b3a.push(*self);
+        }
+        let a: [bool; 3] = (*self).into();
+        a.obs(o)
+    }
+}
 
 pub fn hash_of<T: core::hash::Hash>(v: &T) -> u64 {
     use core::hash::Hasher;
